@@ -31,7 +31,7 @@ fn stage(i: &Input, c: &mut Case) -> Result<(), String> {
     // unknown-size masters are what makes streaming observable: make roots unknown-size often
     if eo.unknown {
         for n in d.forest.iter_mut() {
-            if n.is_master() && !d.spec.table().get(n.id).map(|e| e.is_global()).unwrap_or(true) && t.chance(1, 2) {
+            if n.is_master() && !d.spec.table().get(n.id).map(|e| e.is_global()).unwrap_or(true) && t.chance(3, 4) {
                 n.enc.unknown = true;
                 n.enc.size_w = 8;
                 n.enc.full = false;
@@ -190,7 +190,7 @@ fn stage(i: &Input, c: &mut Case) -> Result<(), String> {
 pub const STAGES: &[Stage] = &[Stage { name: "streaming", f: stage }];
 
 pub fn run(rc: &mut RunCtx) {
-    rc.run_pt(STAGES[0], rc.pick(20_000, 600_000), (96, 640));
+    rc.run_pt(STAGES[0], rc.pick(80_000, 1_500_000), (96, 640));
     for l in ["complete_prefix_checked", "known_open_checked", "unknown_then_writes_then_known", "flush_with_open_masters"] {
         rc.require_label("streaming", l, 20_000);
     }
